@@ -62,7 +62,10 @@ def run(prop, tier, seed, replay=None):
     V.assumptions = [
         "coefficient-field operations (Modular<int32_t>, Modular<Integer>, QField<Rational>) are modelled as exact field arithmetic (Z/p, Q): their own correctness is C03/C10",
         "the threshold used by the model for the SQR_THRESHOLD dispatch is the KARA_THRESHOLD printed by the harness (equal in the source and in both builds); the theorems hold for every threshold >= 1, so a difference would not be observable",
-        "the middle-product family (midmul, stdmidmul, karamidmul), powmod, modin (in-place long division), pdivmod/pmod, invmodunit, interpolation, CRT and p-adic conversion are not modelled: they are decided per generated case by the reference arithmetic / the certificates of Spec/PolySpec.lean whose soundness is proved in Props/C08.lean (divmod_unique, gcd_certificate, invmod_certificate, lcm_certificate, chkDivmod_sound, chkBezout_sound, eqv_correct)",
+        "the Karatsuba middle product (karamidStep) and the two unbalanced block loops of the generic midmul are modelled line by line and compared with the implementation at thresholds 50 and 2 (public and range forms), but proved only where the dispatch selects the schoolbook middle product (stdmidmul_exact, midmul_exact_partial); their exactness is otherwise decided per generated case by the reference product",
+        "interpolation (Interpolation, NewtonInterpGeom over GFqDom<int64_t>(p,1)) and Poly1CRT are not modelled: they are decided per generated case through their defining identities with the verified reference evaluation; the p-adic conversion is modelled on canonical residues (logp of gmp++ and dom_power of givpower.h by value only)",
+        "constructors/assignments, the remaining observers, scalar remainder, inverse, shiftin and the givpoly1dense.h wrappers are compared with the reference arithmetic only (no model); the protected range forms are called through a derived class",
+        "not instantiable with std::vector storage (compile errors inside the library, hence not exercised; not violations): maxpy(r, scalar, b, c) (calls r.copy), shift (calls R.shiftin); NewtonInterpGeom is only instantiable over fields with generator() (GFqDom)",
         "the in-place call forms al_* of the scalar/polynomial overloads are checked against the same contract as the out-of-place forms (aliasing in general is C15)",
         "sdivmod/sxgcd of the specification only *find* certificates that are re-checked by multiplication; smod is used unchecked as the reference for powmod and invmodunit",
         "GFqDom coefficient fields and NewtonInterpGeom (geometric interpolation) are not exercised",
